@@ -113,10 +113,23 @@ def decorated_scan(src, fr):
             'ok': not bad, 'violations': bad, 'sites': []}
 
 
+def defs_scan(src, fr):
+    """every function definition called `def_name` inside the scope (the overriders of a method)"""
+    out = []
+    scope = fr.get('scope', ['circus'])
+    for qual, node, mi in src.all_functions('circus'):
+        mod = qual.split(':')[0]
+        if not any(mod == s or mod.startswith(s + '.') for s in scope):
+            continue
+        if node.name == fr['def_name']:
+            out.append((qual, node.lineno, 'def %s' % node.name))
+    return out
+
+
 def run(fr, src, spec):
     if fr['kind'] == 'decorated':
         return decorated_scan(src, fr)
-    found = sites(src, fr)
+    found = defs_scan(src, fr) if fr['kind'] == 'defs' else sites(src, fr)
     allowed = fr.get('allowed', [])
     bad = []
     for qual, line, what in found:
